@@ -16,7 +16,8 @@ def parseName (j : Json) : JediModel.Determinism.Name :=
   let path : Option (List Nat) := match j.getObjVal? "path" with
     | .ok (.str s) => some (codes s)
     | _ => none
-  { startPos := pos, path := path, name := codes (str j "name"), kind := nat j "kind" }
+  { startPos := pos, path := path, name := codes (str j "name"), apiType := codes (str j "api_type"),
+    kind := nat j "kind" }
 
 partial def parseAct (j : Json) : Act :=
   match j with
